@@ -1,6 +1,6 @@
 """C06 — Operators and conversions on primitives (structural clauses)."""
 
-from ..rules import compiler_rules, operators, tables
+from ..rules import builtins, compiler_rules, operators, tables
 
 
 def run(ctx, rep):
@@ -16,6 +16,7 @@ def run(ctx, rep):
     operators.rule_int_results_normalised(ctx, rep, "C06-R5")
     operators.rule_nan_takes_no_arm(ctx, rep, "C06-R11")
     operators.rule_zero_sign_survives_int(ctx, rep, "C06-R12")
+    builtins.rule_integral_double_printing(ctx, rep, "C06-R13")
     rep.undecided += [
         "the operator/conversion value table (about 80 x 80 x 45 cells against a reference): a runtime differential, outside static analysis",
     ]
